@@ -40,6 +40,16 @@ def parseOp (s : String) : Option Op :=
   | ["sendf", id, dl, _kind] => do
     let d ← if dl = "-" then some none else dl.toNat?.map some
     some (.send (← id.toNat?) d)
+  -- hsend: the request is issued from inside a handler of the connection; to the model and the judge it is a request like
+  -- any other (the writer hands the reader loop over before it waits, so the handler's being busy changes nothing)
+  | ["hsend", id, dl] => do
+    let d ← if dl = "-" then some none else dl.toNat?.map some
+    some (.send (← id.toNat?) d)
+  | ["hsend", id, dl, _kind] => do
+    let d ← if dl = "-" then some none else dl.toNat?.map some
+    some (.send (← id.toNat?) d)
+  -- burst: unrelated messages from the peer; no effect on any request
+  | ["burst", _k] => some (.sleep 0)
   | ["sleep", d] => d.toNat?.map .sleep
   | ["tick", a] => a.toNat?.map .tick
   | ["ack", id] => id.toNat?.map .ack
@@ -104,7 +114,7 @@ def opOther (s : State) : Op → List String
 
 def model (line : String) : String :=
   -- a refused first transmission is outside the model (which has no failing writes): judged only
-  if (line.splitOn "sendf").length > 1 then "n/a" else
+  if (line.splitOn "sendf").length > 1 || (line.splitOn " udpsrv").length > 1 then "n/a" else
   match parseOps line with
   | some (.cfg a m n :: ops) =>
     let P : Params := ⟨a, m, n⟩
